@@ -76,8 +76,8 @@ class Gen:
         return self.dt.Output(pick_u64(rng), self.public_key(rng))
 
     def transaction(self, rng, big=False):
-        ni = pick_count(rng) if not big else rng.choice([63, 64, 127, 128, 129])
-        no = pick_count(rng) if not big else rng.choice([1, 63, 64, 127, 128])
+        ni = pick_count(rng) if not big else rng.choice([63, 64, 96, 127, 128])
+        no = pick_count(rng) if not big else rng.choice([1, 64, 100, 127, 128])
         return self.dt.Transaction([self.input(rng) for _ in range(ni)], [self.output(rng) for _ in range(no)])
 
     def pow_evidence(self, rng):
@@ -90,7 +90,7 @@ class Gen:
         return self.dt.BlockHeader(self.block_summary(rng), self.pow_evidence(rng))
 
     def block(self, rng, big=False):
-        n = pick_count(rng, 4) if not big else rng.choice([64, 127, 128])
+        n = pick_count(rng, 4) if not big else rng.choice([64, 100, 127, 128])
         return self.dt.Block(self.block_header(rng), [self.transaction(rng) for _ in range(n)])
 
     CONSENSUS = ["output_reference", "public_key", "signature", "input", "output", "transaction", "pow_evidence",
